@@ -80,9 +80,10 @@ namespace occa {
   }
 
   memory& memory::swap(memory &m) {
-    modeMemory_t *modeMemory_ = modeMemory;
-    modeMemory   = m.modeMemory;
-    m.modeMemory = modeMemory_;
+    // Swap through handles so both objects' reference rings follow the pointers
+    memory tmp(*this);
+    *this = m;
+    m = tmp;
     return *this;
   }
 
